@@ -104,7 +104,7 @@ func (a ConstFloat64) GetN() int {
 /* json
  * -------------------------------------------------------------------------- */
 func (obj ConstFloat64) MarshalJSON() ([]byte, error) {
-  return json.Marshal(obj)
+  return json.Marshal(float64(obj))
 }
 /* math
  * -------------------------------------------------------------------------- */
